@@ -4,6 +4,8 @@ import (
 	"crypto/tls"
 	"errors"
 	"fmt"
+	"net"
+	"strconv"
 	"strings"
 	"sync"
 	"sync/atomic"
@@ -61,7 +63,7 @@ func init() {
 											cells = append(cells, P("cookie", cookie, "hc", hc, "muxenv", mux, "proto", proto, "tlsm", tlsm, "ln", ln, "versenv", ve))
 										}
 										if ln == "tcp" {
-											for _, pe := range []string{"junk-min", "junk-max", "min>max", "unset"} {
+											for _, pe := range []string{"junk-min", "junk-max", "min>max", "unset", "top-busy", "top-free", "all-busy", "one-port"} {
 												cells = append(cells, P("cookie", cookie, "hc", hc, "muxenv", mux, "proto", proto, "tlsm", tlsm, "ln", ln, "portenv", pe))
 											}
 										}
@@ -227,6 +229,24 @@ func runC16(r *h.Run) {
 		case "min>max":
 			env = append(env, "PLUGIN_MIN_PORT=10005", "PLUGIN_MAX_PORT=10000")
 			listenerMayFail = true
+		case "top-busy":
+			// the range ends at the highest port there is, and all of it is taken
+			env = append(env, "PLUGIN_MIN_PORT=65533", "PLUGIN_MAX_PORT=65535")
+			for p := 65533; p <= 65535; p++ {
+				w.SetPortBusy(p)
+			}
+			listenerMayFail = true
+		case "top-free":
+			env = append(env, "PLUGIN_MIN_PORT=65534", "PLUGIN_MAX_PORT=65535")
+			w.SetPortBusy(65534)
+		case "all-busy":
+			env = append(env, "PLUGIN_MIN_PORT=10000", "PLUGIN_MAX_PORT=10002")
+			for p := 10000; p <= 10002; p++ {
+				w.SetPortBusy(p)
+			}
+			listenerMayFail = true
+		case "one-port":
+			env = append(env, "PLUGIN_MIN_PORT=10004", "PLUGIN_MAX_PORT=10004")
 		case "unset":
 		default:
 			env = append(env, "PLUGIN_MIN_PORT=10000", "PLUGIN_MAX_PORT=10005")
@@ -395,6 +415,23 @@ wait:
 		}
 		if tlsm != "envcert" && f[5] != "" {
 			r.Violate("wrong-line-content", ctx+" unexpected cert", fmt.Sprintf("handshake line %q", firstN(lines[0], 200)))
+		}
+		if f[2] == "tcp" {
+			// the announced port lies inside the range the host allowed
+			lo, hi := 0, 0
+			for _, kv := range env {
+				if v, ok := strings.CutPrefix(kv, "PLUGIN_MIN_PORT="); ok {
+					lo, _ = strconv.Atoi(v)
+				}
+				if v, ok := strings.CutPrefix(kv, "PLUGIN_MAX_PORT="); ok {
+					hi, _ = strconv.Atoi(v)
+				}
+			}
+			if _, ps, err := net.SplitHostPort(f[3]); err == nil && lo > 0 && hi >= lo {
+				if pn, _ := strconv.Atoi(ps); pn < lo || pn > hi {
+					r.Violate("wrong-line-content", ctx+" port-outside-range", fmt.Sprintf("announced %s, allowed range %d..%d", f[3], lo, hi))
+				}
+			}
 		}
 		if want == 7 && f[6] != "true" {
 			r.Violate("wrong-line-content", ctx+" mux field", fmt.Sprintf("handshake line %q", firstN(lines[0], 200)))
